@@ -215,6 +215,13 @@ func ServiceListUpdateEventsFromChanges(tx ReadTxn, changes Changes) ([]stream.E
 
 		kindName := changeObject(change).(*KindServiceName)
 
+		// The service list holds the names of typical services (see
+		// ServiceListSnapshot). Rows of other kinds (e.g. the connect-enabled
+		// alias or a sidecar's own name) must not add or remove a name.
+		if kindName.Kind != structs.ServiceKindTypical {
+			continue
+		}
+
 		// TODO(peering): make this peer-aware.
 		payload := &EventPayloadServiceListUpdate{
 			Name:           kindName.Service.Name,
